@@ -3,6 +3,7 @@ CONSTANTS
   MaxNow = 6
   MaxActs = 7
   CfgSet <- CfgAllT
+  ServerZeroRearms = FALSE
 VIEW View
 INVARIANTS TypeOK
 PROPERTIES C36_Pong C36_Stale C36_Expire C36_OnlyTimers C36_Sub C36_SubOnlyTicks
